@@ -134,8 +134,17 @@ pub fn run(a: &Args) {
             o.direct_checks += 1;
             let got = strip_leftover(&strip_pc(&r.text));
             if got != base {
-                o.violation(viol("l0-observation-depends-on-delivery", vec![("file", jstr(name)), ("bytes", jstr(&hex(bytes))), ("opts", opts.bits().to_string()),
-                    ("schedule", jstr(&format!("{:?}", sc))), ("whole", jstr(&base)), ("pieces", jstr(&got))]));
+                // known finding: corrupt deflate data inside a data chunk also breaks that chunk's CRC - two errors for one frame; fdeflate takes
+                // the bytes of a call into its bit buffer before it decodes them, so with large pieces the chunk can be over (CRC compared) before
+                // the corruption is seen, with small pieces the corruption is seen first
+                let parts = |t: &str| -> (String, String, String) { let (ev, rest) = t.split_once(" END=").unwrap_or((t, "")); let (end, info) = rest.split_once(" INFO=").unwrap_or((rest, "")); (ev.to_string(), end.to_string(), info.to_string()) };
+                let (be, bend, binfo) = parts(&base); let (ge, gend, ginfo) = parts(&got);
+                let pair = ["ERR:Format:CorruptFlateStream", "ERR:Format:CrcMismatch"];
+                let race = pair.contains(&bend.as_str()) && pair.contains(&gend.as_str()) && bend != gend && binfo == ginfo && (be == ge || be.starts_with(&ge) || ge.starts_with(&be));
+                let mut v = viol("l0-observation-depends-on-delivery", vec![("file", jstr(name)), ("bytes", jstr(&hex(bytes))), ("opts", opts.bits().to_string()),
+                    ("schedule", jstr(&format!("{:?}", sc))), ("whole", jstr(&base)), ("pieces", jstr(&got))]);
+                if race { v = v.replacen("\"class\": \"l0-observation-depends-on-delivery\"", "\"class\": \"corrupt-deflate-data-and-the-crc-mismatch-of-its-chunk-reported-in-delivery-dependent-order\"", 1); }
+                o.violation(v);
                 break;
             }
         }
@@ -168,7 +177,16 @@ pub fn run(a: &Args) {
                 };
                 let only_race = a.len() == b.len() && a.iter().zip(b.iter()).all(|(x, y)| x == y || racing(x, y) || (x.starts_with("FIN ") && y.starts_with("FIN ")))
                     && a.iter().zip(b.iter()).any(|(x, y)| racing(x, y));
-                let class = if only_race { "filter-error-and-corrupt-stream-in-one-frame-reported-in-delivery-dependent-order" } else { "reader-result-depends-on-delivery" };
+                let racing2 = |x: &str, y: &str| {
+                    let kinds = ["err:Format:CorruptFlateStream", "err:Format:CrcMismatch"];
+                    let (fx, ex) = x.split_once(' ').unwrap_or((x, ""));
+                    let (fy, ey) = y.split_once(' ').unwrap_or((y, ""));
+                    fx == fy && fx.starts_with('F') && fx != "FIN" && kinds.contains(&ex) && kinds.contains(&ey) && ex != ey
+                };
+                let only_race2 = a.len() == b.len() && a.iter().zip(b.iter()).all(|(x, y)| x == y || racing2(x, y) || (x.starts_with("FIN ") && y.starts_with("FIN ")))
+                    && a.iter().zip(b.iter()).any(|(x, y)| racing2(x, y));
+                let class = if only_race { "filter-error-and-corrupt-stream-in-one-frame-reported-in-delivery-dependent-order" }
+                    else if only_race2 { "corrupt-deflate-data-and-the-crc-mismatch-of-its-chunk-reported-in-delivery-dependent-order" } else { "reader-result-depends-on-delivery" };
                 let mut v = viol("reader-result-depends-on-delivery", vec![("file", jstr(name)), ("bytes", jstr(&hex(bytes))), ("opts", opts.bits().to_string()),
                     ("schedule", jstr(&format!("{:?}", sc))), ("whole", jstr(&one)), ("pieces", jstr(&got))]);
                 v = v.replacen("\"class\": \"reader-result-depends-on-delivery\"", &format!("\"class\": \"{}\"", class), 1);
